@@ -521,9 +521,12 @@ Fixpoint parse_pattern (n : nat) (s : pstate) : pres upattern :=
       end
   end.
 
-Section WithExpr.
-  (* parse_expr, one nesting level down *)
+(* fn parse_literal(token, only_literal_children): the children are parsed by [pe], which is
+   parse_expr (only_literal_children = false) or parse_literal_recusively (true) *)
+Section Literal.
+  Variable only_literal_children : bool.
   Variable pe : pstate -> pres uexpr.
+
 
   (* `args.push(parse_expr()?); while next_matches(Comma) { if peek(close) { break } args.push(parse_expr()?) }`
      ([acc] in reverse) *)
@@ -539,10 +542,11 @@ Section WithExpr.
         end
     end.
 
-  (* one field of a struct literal: `name` (the variable of that name) or `name: e` *)
+  (* one field of a struct literal: `name` (the variable of that name; not a literal) or `name: e` *)
   Definition struct_field (s : pstate) : pres (list N * uexpr) :=
     expect_identifier s (fun name s1 =>
-      if peek TComma s1 || peek TRightBrace s1 then POk (name, UIdentifier name) s1
+      if peek TComma s1 || peek TRightBrace s1
+      then (if only_literal_children then PErr else POk (name, UIdentifier name) s1)
       else expect TColon s1 (fun s2 => bindp (pe s2) (fun value s3 => POk (name, value) s3))).
 
   (* `(Unspecified, ty) | (ty, Unspecified) => ty, (ty1, ty2) if ty1 == ty2 => ty1, _ => error` *)
@@ -553,8 +557,8 @@ Section WithExpr.
     | _, _ => if unsigned_num_type_eq_dec t1 t2 then Some t1 else None
     end.
 
-  (* fn parse_literal(token, false) *)
-  Definition parse_literal (n : nat) (t : token_enum) (s : pstate) : pres uexpr :=
+  (* fn parse_literal(token, only_literal_children) *)
+  Definition parse_literal_gen (n : nat) (t : token_enum) (s : pstate) : pres uexpr :=
     match t with
     | TIdentifier id =>
         if list_eqb id s_true then POk UTrue s
@@ -618,7 +622,8 @@ Section WithExpr.
               | Token (TUnsignedNum k Usize) _ :: r =>
                   expect TRightBracket (PState r (sla s2)) (fun s3 => POk (UArrayRepeat elem k) s3)
               | Token (TIdentifier c) _ :: r =>
-                  expect TRightBracket (PState r (sla s2)) (fun s3 => POk (UArrayRepeatConst elem c) s3)
+                  if only_literal_children then PErr      (* `Some(Identifier(n)) if !only_literal_children` *)
+                  else expect TRightBracket (PState r (sla s2)) (fun s3 => POk (UArrayRepeatConst elem c) s3)
               | _ => PErr
               end)
           else
@@ -626,6 +631,16 @@ Section WithExpr.
               expect TRightBracket s2 (fun s3 => POk (UArrayLiteral elems) s3)))
     | _ => PErr
     end.
+
+End Literal.
+
+Section WithExpr.
+  (* parse_expr, one nesting level down *)
+  Variable pe : pstate -> pres uexpr.
+
+  (* fn parse_literal(token, false) *)
+  Definition parse_literal (n : nat) (t : token_enum) (s : pstate) : pres uexpr :=
+    parse_literal_gen false pe n t s.
 
   (* the loop at the end of parse_primary: `while peek([) || peek(.) { .. }` *)
   Fixpoint postfix_loop (n : nat) (x : uexpr) (s : pstate) : pres uexpr :=
@@ -666,7 +681,7 @@ Section WithExpr.
               match next_matches TLeftParen s1 with
               | Some s2 =>
                   bindp (if negb (peek TRightParen s2)
-                         then bindp (pe s2) (fun a s3 => comma_loop TRightParen n [a] s3)
+                         then bindp (pe s2) (fun a s3 => comma_loop pe TRightParen n [a] s3)
                          else POk [] s2)
                     (fun args s3 => expect TRightParen s3 (fun s4 => POk (UFnCall id args) s4))
               | None =>
@@ -931,6 +946,31 @@ Definition parse_block_text (fuel : nat) (ts : list token) : pres (list ustmt) :
    printed inputs of ParseExprProofs.v ([parse_show_min] gives some fuel); for other inputs it
    is a default for the extracted parser. *)
 Definition fuel_for_tokens (ts : list token) : nat := S (S (List.length ts)).
+
+(* ------------------------------------------------------------------ the literal mode *)
+
+(* fn parse_literal_recusively: `if let Some(token) = self.advance() { parse_literal(token, true) } else { Err }` *)
+Fixpoint parse_literal_recursively (n : nat) (s : pstate) : pres uexpr :=
+  match n with
+  | O => PNoFuel
+  | S n' =>
+      match advance s with
+      | Some (t, s1) => parse_literal_gen true (parse_literal_recursively n') n' t s1
+      | None => PErr
+      end
+  end.
+
+(* Tokens::parse_literal (used by Literal::parse for argument texts): the first token starts a
+   literal whose children are literals; the whole input must be that one literal; an error that
+   does not stop the parser (`0u8..3u16`) is an error nonetheless ([PErr] already where it is
+   pushed); the empty input is an InvalidLiteral *)
+Definition parse_literal_text (fuel : nat) (ts : list token) : pres uexpr :=
+  match advance (PState ts true) with
+  | Some (t, s1) =>
+      bindp (parse_literal_gen true (parse_literal_recursively fuel) fuel t s1) (fun e s2 =>
+        match toks s2 with [] => POk e s2 | _ => PErr end)
+  | None => PErr
+  end.
 
 (* ------------------------------------------------------------------ top-level items *)
 
